@@ -5,6 +5,7 @@ from ..core import Acc, Viol, jhash
 from .. import pk, gen, cmp, corpus, profiles as pf
 
 ID = 'C05'
+HORIZON_S = 1800   # one case = one input under all its transformations
 LEVEL = 'exploration'
 LEVEL_TEXT = ('Every ordered pair (A, B) from a library of parts (docked pairs, coupled/iterative clusters at three burial levels, '
               'ligands, ions, a protein chain; A = B included) is combined into one file at every separation of a list that '
